@@ -34,6 +34,7 @@ from translate import c03_contract
 KNOWN_MISSING = 'composite-missing-at-entry'
 KNOWN_ORDER = 'composite-resolved-through-later-state-variable'
 KNOWN_FORTARGET = 'nouts-for-target-killed-on-loop-exit'
+KNOWN_PREV_ITER = 'getter-reads-body-local-bound-only-by-previous-iteration'
 SHIFT = 4     # module prelude lines in front of the generated function
 
 DIRECTIVE = 'malt.experimental.set_loop_options'
@@ -120,6 +121,22 @@ CORPUS = [
 ]
 
 
+def corpus_files():
+    """corpus/C03/*.py: `# stream: <name>` header, comment lines dropped, the rest is the program"""
+    d = os.path.join(vlib.ROOT, 'corpus', 'C03')
+    out = []
+    for fn in sorted(os.listdir(d)) if os.path.isdir(d) else []:
+        if not fn.endswith('.py'):
+            continue
+        lines = open(os.path.join(d, fn)).read().split('\n')
+        stream = 'main'
+        for l in lines:
+            if l.startswith('# stream:'):
+                stream = l.split(':', 1)[1].strip()
+        out.append((stream, '\n'.join(l for l in lines if not l.startswith('#')).strip('\n') + '\n'))
+    return out
+
+
 # ======================================================================================= runtime objects
 
 class Obj(object):
@@ -181,6 +198,7 @@ class Monitor(object):
         self.opts_unidentified = 0
         self.Undefined = ag.Undefined
         self.resets = []
+        self.program_src = None
 
     # ---- helpers
     def fail(self, what, detail, classify=None):
@@ -278,6 +296,40 @@ class Monitor(object):
                 return True
         return False
 
+    def is_prev_iteration_local(self, exc, frame, names):
+        """classifier of the known finding: the getter raised NameError / UnboundLocalError for a simple state
+        variable v that (1) is a local variable of the generated loop-body function that issues the operator call
+        (a cell variable of that frame, not a parameter), (2) is unbound there at the call, (3) is bound by that body
+        only at a later line (i.e. by a previous iteration), and (4) the original statement lies in a loop of the
+        original source that assigns v"""
+        import dis
+        import re
+        if not isinstance(exc, NameError):
+            return False
+        v = getattr(exc, 'name', None)
+        if not v:
+            m = re.search(r"variable '(\w+)'|name '(\w+)'", str(exc))
+            v = (m.group(1) or m.group(2)) if m else None
+        co = frame.f_code
+        if not v or v not in names or not re.match(r'^loop_body(_\d+)?$', co.co_name):
+            return False
+        if v not in co.co_cellvars or v in co.co_varnames[:co.co_argcount] or v in frame.f_locals:
+            return False
+        stores = [i.positions.lineno for i in dis.get_instructions(co)
+                  if i.opname in ('STORE_DEREF', 'STORE_FAST') and i.argval == v and i.positions and i.positions.lineno]
+        if not stores or min(stores) <= frame.f_lineno:
+            return False
+        line = self.orig_line(frame)
+        if line is None or self.program_src is None:
+            return False
+        line -= SHIFT
+        for loop in ast.walk(ast.parse(self.program_src)):
+            if isinstance(loop, (ast.For, ast.While)) and loop.lineno < line <= loop.end_lineno:
+                body = ast.Module(body=loop.body, type_ignores=[])
+                if any(isinstance(x, ast.Name) and x.id == v and isinstance(x.ctx, ast.Store) for x in ast.walk(body)):
+                    return True
+        return False
+
     # ---- the contract at one invocation
     def check_state(self, op, frame, get_state, set_state, names, nouts, detail):
         ok = True
@@ -298,7 +350,8 @@ class Monitor(object):
             g1 = get_state()
             g2 = get_state()
         except Exception as e:  # noqa
-            self.fail('%s: get_state() raised %s' % (op, type(e).__name__), dict(detail, error=str(e)))
+            cls = KNOWN_PREV_ITER if self.is_prev_iteration_local(e, frame, names) else None
+            self.fail('%s: get_state() raised %s' % (op, type(e).__name__), dict(detail, error=str(e)), cls)
             return None
         if not (isinstance(g1, tuple) and len(g1) == n):
             self.fail('%s: get_state() returned %d values for %d symbol names' % (op, len(g1) if isinstance(g1, tuple) else -1, n), detail)
@@ -993,7 +1046,7 @@ def check(run):
     h = Harness(run)
     nprog = {'main': 320, 'missing': 50, 'order': 50} if not thorough else {'main': 1200, 'missing': 200, 'order': 200}
     nvec = 3 if not thorough else 5
-    programs = list(CORPUS)
+    programs = list(CORPUS) + corpus_files()
     for stream in ('main', 'missing', 'order'):
         for _ in range(nprog[stream]):
             programs.append((stream, gen_program(rnd, stream)))
@@ -1009,6 +1062,7 @@ def check(run):
             try:
                 mod = h.load(src)
                 monitor.expected_opts, monitor.loop_keys = expected_opts(src)
+                monitor.program_src = src
                 shift = SHIFT
                 monitor.expected_opts = {k + shift: v for k, v in monitor.expected_opts.items()}
                 monitor.loop_keys = {k: v + shift for k, v in monitor.loop_keys.items()}
@@ -1085,8 +1139,15 @@ def check(run):
             name, ty, fn, items = sh
             body = header + ['Definition cases : list %s := [' % ty, ';\n'.join(items), '].',
                              'Eval vm_compute in %s cases.' % fn]
-            rc, out = vlib.coq_eval('C03', name, '\n'.join(body), timeout=600)
+            # per-process file names: concurrent runs of this check must not overwrite each other's cases
+            fname = '%s_p%d' % (name, os.getpid())
+            rc, out = vlib.coq_eval('C03', fname, '\n'.join(body), timeout=600)
             bad = vlib.parse_coq_list_of_nat(out) if rc == 0 else None
+            if rc == 0 and not bad:
+                try:
+                    os.remove(os.path.join(vlib.BUILD, 'C03', fname + '.v'))
+                except OSError:
+                    pass
             return name, rc, out, bad
         from concurrent.futures import ThreadPoolExecutor
         with ThreadPoolExecutor(max_workers=6) as ex:
@@ -1156,6 +1217,7 @@ def replay(path):
         monitor = Monitor(h.ag, h.op_params)
         mod = h.load(rep['program'])
         eo, lk = expected_opts(rep['program'])
+        monitor.program_src = rep['program']
         monitor.expected_opts = {k + SHIFT: v for k, v in eo.items()}
         monitor.loop_keys = {k: v + SHIFT for k, v in lk.items()}
         tf, smap = h.convert(mod, monitor, capture=False)
